@@ -274,6 +274,14 @@ theorem func_owned (ops : Ops ι) (root : Option Tree) (d : Val) (ch : Choice) (
 
 /-! ### `Parse` -/
 
+/-- unfold every primitive of Glob/State.lean that the wrapper may use (more than today's source uses, so that
+    e.g. a field-by-field reset still unfolds) -/
+local macro "prims" "[" ts:Lean.Parser.Tactic.simpLemma,* "]" : tactic =>
+  `(tactic| simp [World.parseIsNil, World.pegInit, World.pegReset, World.setBuffer, World.ev, World.runActions,
+      World.setUnescapeRegex, World.setRoot, World.setParams, World.setParamsList, World.setFilterFunctions,
+      World.setAggregateFunctions, World.setAccessorMode, World.setJsonPathParser, World.updJP, World.getRoot,
+      World.unlock, World.lock, elemAt, asError, BodyRet.frame, ParseRet.ofFrame, $ts,*])
+
 theorem Parse_blocked (ops : Ops ι) (s : String) (config : List Config) (w : World) (hw : w.mutex = true) :
     Parse ops s config w = (w, .blocked) := by
   simp [Parse, World.lock, hw]
@@ -281,8 +289,7 @@ theorem Parse_blocked (ops : Ops ι) (s : String) (config : List Config) (w : Wo
 /-- after `Parse` has returned the embedded jsonPathParser is `jsonPathParser{}` and the mutex is free -/
 theorem Parse_reset (ops : Ops ι) (s : String) (config : List Config) (w : World) (hw : w.mutex = false) :
     (Parse ops s config w).1.parser.jsonPathParser = JsonPathParser.zero ∧ (Parse ops s config w).1.mutex = false := by
-  simp [Parse, World.lock, hw, Parse_defer1, World.unlock, World.setJsonPathParser, World.updJP, World.ev,
-    JsonPathParser.zero]
+  prims [Parse, hw, Parse_defer1, JsonPathParser.zero]
 
 /-- the state the actions run on: the state found, with the regexp set and, if a configuration is given,
     its three fields copied in -/
@@ -319,16 +326,13 @@ theorem Parse_ret (ops : Ops ι) (s : String) (config : List Config) (w : World)
     cases hrt : w.parser.rt <;>
     rcases hr : ops.runActions (armed w.parser.jsonPathParser []) s with ⟨jp', _ | stop⟩ <;>
     simp [armed] at hr <;>
-    simp [World.parseIsNil, World.pegInit, World.pegReset, World.setBuffer, World.ev, hrt, World.runActions,
-      World.setUnescapeRegex, World.setRoot, World.setParams, World.setParamsList, World.updJP, hr, BodyRet.frame, ParseRet.ofFrame, PRet.toRet, World.getRoot, asError] <;>
+    prims [hrt, hr, PRet.toRet] <;>
     cases hie : ops.isError stop <;> simp
   | cons c cs =>
     cases hrt : w.parser.rt <;>
     rcases hr : ops.runActions (armed w.parser.jsonPathParser (c :: cs)) s with ⟨jp', _ | stop⟩ <;>
     simp [armed] at hr <;>
-    simp [World.parseIsNil, World.pegInit, World.pegReset, World.setBuffer, World.ev, hrt, World.runActions,
-      World.setUnescapeRegex, World.setRoot, World.setParams, World.setParamsList, World.updJP, hr, BodyRet.frame, ParseRet.ofFrame, PRet.toRet, World.getRoot, asError,
-      elemAt, World.setFilterFunctions, World.setAggregateFunctions, World.setAccessorMode] <;>
+    prims [hrt, hr, PRet.toRet] <;>
     cases hie : ops.isError stop <;> simp
 
 /-- `Parse` does not touch the pools -/
@@ -340,15 +344,12 @@ theorem Parse_pools (ops : Ops ι) (s : String) (config : List Config) (w : Worl
     | nil =>
       cases hrt : w.parser.rt <;>
       rcases hr : ops.runActions { w.parser.jsonPathParser with unescapeRegex := true } s with ⟨jp', _ | stop⟩ <;>
-      simp [World.parseIsNil, World.pegInit, World.pegReset, World.setBuffer, World.ev, hrt, World.runActions,
-        World.setUnescapeRegex, World.setRoot, World.setParams, World.setParamsList, World.updJP, hr, World.getRoot, World.unlock, World.setJsonPathParser]
+      prims [hrt, hr]
     | cons c cs =>
       cases hrt : w.parser.rt <;>
       rcases hr : ops.runActions (armed w.parser.jsonPathParser (c :: cs)) s with ⟨jp', _ | stop⟩ <;>
       simp [armed] at hr <;>
-      simp [World.parseIsNil, World.pegInit, World.pegReset, World.setBuffer, World.ev, hrt, World.runActions,
-        World.setUnescapeRegex, World.setRoot, World.setParams, World.setParamsList, World.updJP, hr, World.getRoot, World.unlock, World.setJsonPathParser,
-        elemAt, World.setFilterFunctions, World.setAggregateFunctions, World.setAccessorMode]
+      prims [hrt, hr]
   · rw [Parse_blocked ops s config w hw]
 
 /-! ### the log -/
@@ -423,16 +424,13 @@ theorem Parse_atomic (ops : Ops ι) (s : String) (config : List Config) (w : Wor
   | nil =>
     cases hrt : w.parser.rt <;>
     rcases hr : ops.runActions { w.parser.jsonPathParser with unescapeRegex := true } s with ⟨jp', _ | stop⟩ <;>
-    simp [World.parseIsNil, World.pegInit, World.pegReset, World.setBuffer, World.ev, hrt, World.runActions,
-      World.setUnescapeRegex, World.setRoot, World.setParams, World.setParamsList, World.updJP, hr, World.getRoot, World.unlock, World.setJsonPathParser] <;>
+    prims [hrt, hr] <;>
     exact ⟨_, rfl, by repeat constructor⟩
   | cons c cs =>
     cases hrt : w.parser.rt <;>
     rcases hr : ops.runActions (armed w.parser.jsonPathParser (c :: cs)) s with ⟨jp', _ | stop⟩ <;>
     simp [armed] at hr <;>
-    simp [World.parseIsNil, World.pegInit, World.pegReset, World.setBuffer, World.ev, hrt, World.runActions,
-      World.setUnescapeRegex, World.setRoot, World.setParams, World.setParamsList, World.updJP, hr, World.getRoot, World.unlock, World.setJsonPathParser,
-      elemAt, World.setFilterFunctions, World.setAggregateFunctions, World.setAccessorMode] <;>
+    prims [hrt, hr] <;>
     exact ⟨_, rfl, by repeat constructor⟩
 
 /-- the trace of the function `Parse` returns: no access to `parser`, no lock -/
